@@ -110,7 +110,7 @@ enum SnapAt {
 
 /// Build: client 1 gets two versions (so foreign ids exist); client 0 gets a chain of `n`
 /// versions on a nil / non-nil base with the requested snapshot.
-fn scenario_prefix(n: usize, nonnil_base: bool, snap: SnapAt) -> Vec<Op> {
+fn scenario_prefix(n: usize, base: u8, snap: SnapAt) -> Vec<Op> {
     let mut ops = vec![
         Op::AddVersion { c: 1, parent: IdRef::Nil, data: d(900) },
         Op::AddVersion { c: 1, parent: IdRef::Latest(1), data: d(901) },
@@ -118,7 +118,12 @@ fn scenario_prefix(n: usize, nonnil_base: bool, snap: SnapAt) -> Vec<Op> {
     ];
     for i in 0..n {
         let parent = if i == 0 {
-            if nonnil_base { IdRef::Fresh(100) } else { IdRef::Nil }
+            match base {
+                0 => IdRef::Nil,
+                1 => IdRef::Fresh(100),
+                // the chain starts from a version id that belongs to another client
+                _ => IdRef::Latest(1),
+            }
         } else {
             IdRef::Latest(0)
         };
@@ -141,7 +146,8 @@ fn id_choices(n: usize) -> Vec<IdRef> {
     v
 }
 
-fn snap_choices(n: usize, nonnil: bool) -> Vec<SnapAt> {
+fn snap_choices(n: usize, base: u8) -> Vec<SnapAt> {
+    let nonnil = base != 0;
     let mut s = vec![SnapAt::None];
     for j in 0..n {
         s.push(SnapAt::Pos(j));
@@ -156,10 +162,10 @@ fn small_scope(id: &str, max_n: usize) -> Vec<HCase> {
     let mut out = vec![];
     for backend in [Backend::Mem, Backend::Sqlite] {
         for n in 0..=max_n {
-            for nonnil in [false, true] {
-                for snap in snap_choices(n, nonnil) {
+            for base in [0u8, 1, 2] {
+                for snap in snap_choices(n, base) {
                     for v in id_choices(n) {
-                        let mut ops = scenario_prefix(n, nonnil, snap);
+                        let mut ops = scenario_prefix(n, base, snap);
                         match id {
                             "C10" => {
                                 ops.push(Op::AddSnapshot { c: 0, version: v.clone(), data: d(700) });
